@@ -228,9 +228,8 @@ Qed.
 Lemma engine_search_err_no_crash cfg b r c : engine_search_err cfg b r = Some c -> is_crash c = false.
 Proof.
   unfold engine_search_err. destruct (negb _); [intros H; injection H as <-; reflexivity|].
-  destruct (c_metric cfg); [discriminate|]. destruct (nsq _); try discriminate.
-  - destruct b; [|discriminate]. intros H; injection H as <-; reflexivity.
-  - intros H; injection H as <-; reflexivity.
+  destruct (c_metric cfg); [discriminate|]. destruct (nsq _); try discriminate;
+    intros H; injection H as <-; reflexivity.
 Qed.
 Lemma group_err_no_crash cfg r bad c : group_err cfg r bad = Some c -> is_crash c = false.
 Proof.
